@@ -92,6 +92,8 @@ fn replay(sink: &mut common::Sink, toks: &[&str]) {
         "int" | "acc" | "iprint" => c06::replay(sink, toks),
         #[cfg(feature = "ap")]
         "numtext" | "reprint" => c20::replay(sink, toks),
+        #[cfg(feature = "ap")]
+        "accbig" => c20::replay(sink, toks),
         "stream" => c12::replay(sink, toks),
         "rfault" | "rfaultt" | "sfault" | "wfault" => c13::replay(sink, toks),
         #[cfg(feature = "rv")]
